@@ -8,6 +8,10 @@
 (*   bignum (300: a number no 8-bit field holds - WHICH alternative a text  *)
 (*   selects never depends on its value; a value the selected field cannot *)
 (*   hold rejects the statement, it does not move on to a later variant)   *)
+(*   r+key (a register indexed by an identifier that is an enumeration key  *)
+(*   of the index and, as text, also a label): inside an indexed register   *)
+(*   the index alternatives follow the same type priority - the key wins    *)
+(*   over the numeric reading (IndexReading)                                *)
 (*   r++  @r  (decorated register)   -[r]  (decorated indirect register)   *)
 (*   a statement may also have NO operand text at all (the empty tuple): an *)
 (*   explicitly listed combination consisting of the "empty" operand       *)
@@ -46,8 +50,8 @@ A(id, ty, off, curly) == [id |-> id, ty |-> ty, off |-> off, curly |-> curly]
 
 Rank(ty) ==
     CASE ty \in {"indirect_register", "indirect_register_pre"} -> 2 [] ty = "indirect_indexed_register" -> 3 [] ty = "indirect_numeric" -> 4
-      [] ty = "deferred_numeric" -> 5 [] ty = "indexed_register" -> 6 [] ty = "enumeration" -> 7
-      [] ty \in {"register", "register_pp", "register_at"} -> 8        \* a decorated register is a register operand
+      [] ty = "deferred_numeric" -> 5 [] ty \in {"indexed_register", "indexed_register2"} -> 6 [] ty = "enumeration" -> 7
+      [] ty \in {"register", "register_pp", "register_prepp", "register_at"} -> 8        \* a decorated register is a register operand
       [] ty \in {"numeric", "numeric_va", "numeric16"} -> 9 [] ty = "address" -> 10 [] ty = "relative_address" -> 11 [] ty = "numeric_bytecode" -> 12
       [] OTHER -> 99
 
@@ -55,13 +59,15 @@ Rank(ty) ==
 Acc(a, t) ==
     CASE a.ty = "register" -> t = "r"
       [] a.ty = "register_pp" -> t = "r++"          \* register with the postfix decorator ++
+      [] a.ty = "register_prepp" -> t = "++r"       \* the same decorator as a prefix: another operand text altogether
       [] a.ty = "register_at" -> t = "@r"           \* register with the prefix decorator @
       [] a.ty = "indirect_register" -> t = "[r]" \/ (a.off /\ t = "[r+n]")
       [] a.ty = "indirect_register_pre" -> t = "-[r]"          \* indirect register with the prefix decorator -
       [] a.ty = "indirect_indexed_register" -> t = "[r+n]"
       [] a.ty = "indirect_numeric" -> t = "[n]"
       [] a.ty = "deferred_numeric" -> t = "[[n]]"
-      [] a.ty = "indexed_register" -> t = "r+n"
+      [] a.ty = "indexed_register" -> t \in {"r+n", "r+key"}            \* a numeric index: the key is read as a label
+      [] a.ty = "indexed_register2" -> t \in {"r+n", "r+key"}           \* index alternatives listed as numeric, enumeration (not in priority order)
       [] a.ty = "enumeration" -> t = "key"
       \* a numeric expression: numbers and labels (an enumeration key is, as text, an identifier, i.e. a label);
       \* NEVER a register name, alone or inside the expression
@@ -138,6 +144,9 @@ Outcome(vs, ts) ==
          THEN [ok |-> FALSE, v |-> 0, ids |-> <<>>] ELSE sel
 \* a value that does not fit never changes the selection: the statement is then rejected although a later variant could hold it
 ValueNeverSelects == isa # <<>> => (Outcome(isa, texts).ok => Outcome(isa, texts) = Select(isa, texts, 1))
+
+\* which index alternative of an indexed_register2 reads the index text: the enumeration for its key, else the numeric one
+IndexReading(a, t) == IF a.ty = "indexed_register2" /\ t = "r+key" THEN "enumeration" ELSE "numeric"
 
 Init == isa = <<>> /\ texts \in TextTuples
 Next == Len(isa) < MaxVariants /\ \E v \in VariantPool : isa' = Append(isa, v) /\ UNCHANGED texts
